@@ -66,6 +66,10 @@ CLAIMED = {
          "Props/C14.v: C14_pipeline, C14_strain_all_identity, C14_cook_combine. Pipelines over {colander, chef, combine with sibling, combine with ancestor} (all sequences of length <= 2 over the kinds, sampled up to 4) are run on generated plotfiles; after every hop the output is parsed by the independent reader and compared with the composed pure numpy operations, validated by taste (with and without box coordinates), and compared byte for byte with the composition of the extracted Writers.* models.",
          "the per-operation hypotheses of C14_pipeline (each tool preserves well-formedness and refines its pure operation) are proved only for the binary cores (C05/C06/C11) and otherwise established by correspondence; chk2plt as a source is covered by C17.",
          "DESIGN.md section 3 C14"),
+ 'C12': ("Coq proof (ordered map/imap pairing is independent of the execution order; file-system confluence of tasks touching disjoint files for every execution order; order-free keyed painting) + exhaustive task-order runs of every tool under a controlled pool with audited task file sets",
+         "Props/C12.v: C12_ordered_pairing, C12_unordered_needs_keys, C12_fs_confluence, C12_painting_order_free. 13 tool scenarios (reader selections / iteration, taste, colander, combine x3 modes, chef, mandoline 2D / 3D, pestle, whip, chk2plt) are run under the submission order and 27 other task orders (all 24 orders of every pool call with <= 4 tasks, reverse, random), and in serial mode where it exists; returned values and the sha256 of every output file must equal the baseline; every task's open() calls are audited and the independence hypothesis of the confluence theorem is checked on every pool call; thorough tier adds real process pools with 1, 2, 16 workers.",
+         "schedules are explored at task granularity (justified by the audited disjointness of task file sets); the OS scheduler and multiprocessing's ordering guarantee for map/imap are trusted; worker count enters only through the real-pool runs of the thorough tier.",
+         "DESIGN.md section 3 C12"),
 }
 PENDING_REASON = "check not built yet in this round (model and theorems planned in DESIGN.md section 3); not claimed until its check runs"
 
